@@ -1,14 +1,17 @@
-"""C10 -- the SRT reader reproduces every cue's time, lines and formatting exactly.   Level: other (bounded run-time contracts).
+"""C10 -- the SRT reader reproduces every cue's time, lines and formatting exactly.   Level: other (proved time clauses + bounded).
 
 Functions under contract: ttconv.srt.reader.to_model (state machine COUNTER -> TC -> TEXT), _TextParser.handle_starttag /
 handle_endtag / handle_data, ttconv.utils.parse_color; compositions with ttconv.srt.writer.from_model and
 ttconv.imsc.writer.from_model (frames syntax).  The oracle is specs/srt.py (SubRip grammar written independently).
 
-No proof tier: the time computation of the reader is inline in to_model, behind a regular-expression match on a text line
-(`int(m.group('begin_h')) * 3600 + ... + int(m.group('begin_ms')) / 1000`); there is no callable that takes numbers, and pyvc
-models neither `re` nor symbolic strings.  The exactness clause is therefore decided by evaluation: every millisecond value
-000..999, every hour value 00..999 in both spellings and every mm:ss value are enumerated (per field), and the type of the
-result is checked (numbers.Rational, not float), which no float-based computation can satisfy."""
+Proof tier (contracts/reader_times.py): the time computation of the reader is inline in to_model, behind a regular-expression match on
+a text line; the compiled pattern is replaced by a stub whose named groups are symbolic digit strings ranging over everything the real
+sub-patterns can spell (A-RE), and the real reader runs on a file with a placeholder timing line.  Proved for ALL digit values:
+begin and end of the paragraph are exactly the printed times as rationals (never a float), hour fields of two or three digits;
+and, through the real IMSC writer in frames syntax at 24/25/30/50/60 fps, a printed time that is a whole number of frames is written as
+exactly that frame count (the `lands on the intended frame` clause).
+Everything that involves the text of a cue (lines, tags, counters, blank-line runs, round trip) is string processing: bounded tier only
+(rtc/c10.py), where also every millisecond value 000..999, every hour value 00..999 in both spellings and every mm:ss value are enumerated."""
 import framework
 
 PROP = "C10"
@@ -34,7 +37,8 @@ ASSUMPTIONS = [
   "safety contracts (cue without text, stray / unclosed / mis-nested tag) lie OUTSIDE the quantifier of the property (1-5 text lines, nested/adjacent "
   "tags); they only demand: no internal exception (None or ValueError are accepted as rejection), the other cues read correctly, the ill-formed "
   "cue dropped or its characters kept; their keys are `empty-cue-*`, `stray-end-tag-*`, `unclosed-tag-*`, `misnested-tag-*`",
-  "long tag forms (<bold>, {italic}, ...) and upper-case tags are ttconv extensions outside the statement: not generated",
+  "long tag forms (<bold>, {italic}, ...) are ttconv extensions outside the statement: not generated; tag and attribute names in angle-bracket "
+  "syntax are case-insensitive (the reader uses html.parser) and are generated in lower, upper and mixed case",
 ]
 FUNCTIONS = ["ttconv.srt.reader:to_model", "ttconv.srt.reader:_TextParser.handle_starttag", "ttconv.srt.reader:_TextParser.handle_endtag",
              "ttconv.srt.reader:_TextParser.handle_data", "ttconv.utils:parse_color"]
@@ -51,7 +55,7 @@ def check(tier, seed, only=None, skip_a=False, skip_b=False):
       undecided.append(f"obligation={fn} reason=function-not-found:{e}")
   if not skip_a:
     from contracts import reader_times
-    hs = [reader_times.h_srt_times()]
+    hs = [reader_times.h_srt_times()] + [reader_times.h_srt_frames(fps) for fps in (24, 25, 30, 50, 60)]
     if only:
       hs = [h for h in hs if only in h.name]
     cov_a, f_a, u_a, e_a = framework.run_tier_a(PROP, hs)
